@@ -1,0 +1,30 @@
+// Copyright (c) 2026 10X Genomics, Inc. All rights reserved.
+
+//go:build verif
+
+package syntax
+
+import "strings"
+
+// Exports of unexported formatter functions for the external verification
+// harness.  This file is only compiled with `-tags verif`.
+
+// VerifFormatExp exposes Exp.format.
+func VerifFormatExp(e Exp, prefix string) string {
+	var sb strings.Builder
+	e.format(&sb, prefix)
+	return sb.String()
+}
+
+// VerifSingleLineFormat exposes singleLineFormat.
+func VerifSingleLineFormat(e Exp) bool { return singleLineFormat(e) }
+
+// VerifQuoteString exposes quoteString.
+func VerifQuoteString(s string) string {
+	var sb strings.Builder
+	quoteString(&sb, s)
+	return sb.String()
+}
+
+// VerifIndent is the formatter's indentation unit.
+const VerifIndent = INDENT
